@@ -449,4 +449,4 @@ for _pid, _txt in _SURFACE.items():
 # the lock stage of C05 also decides that part of C18; whole runs (interrupted ones included)
 # whose totals are compared with what the bodies executed also decide C17's "cover all iterations"
 PROPS["C18"]["stages"] = PROPS["C18"]["stages"] + [st for st in PROPS["C05"]["stages"] if st["name"] == "c05locks"]
-PROPS["C17"]["stages"] = PROPS["C17"]["stages"] + [st for st in PROPS["C01"]["stages"] if st["name"] == "c01runs"]
+PROPS["C17"]["stages"] = PROPS["C17"]["stages"] + [st for st in PROPS["C01"]["stages"] if st["name"] in ("c01runs", "c02runs")]
